@@ -33,6 +33,7 @@ import YtkProofs.EnvFrame
 import YtkProofs.PipelineDataWF
 import YtkProofs.MergeRel
 import YtkProofs.HeapPatch
+import YtkProofs.HeapSet
 
 namespace Ytk.C13
 open Ytk.PD
@@ -931,6 +932,87 @@ theorem heap_patchOp_nofix_valueFrom_cyclic :
     (patchOpDoH "add" none (some ["t", "self"]) (.from ["t"]) qHeap 4).2 = .ok () ∧
     abs (patchOpDoH "add" none (some ["t", "self"]) (.from ["t"]) qHeap 4).1 4 =
       some (.cont [("t", .cont [("self", .cont [])])]) := by
+  decide +kernel
+
+/-! ### SetOp: the payload is decoded anew on every execution -/
+
+/-- THE SET PAYLOAD IS FRESH.  `SetOp.Do` converts its `Data` map with `FromMap` on EVERY execution
+    (`decodeNode`): for any strategy and path, a successful execution has built a payload container
+    `c` — a cell allocated by this execution — such that EVERY cell reachable from it was allocated
+    by this execution, except nulls (the shared nil leaf, immutable); no existing cell was written
+    while building it.  With the replace strategy and a non-empty path that very container is what
+    `AddValueAt` attaches.  Hence running the same op object — or its forEach clones, which share the
+    `Data` MAP, never a node — n times places n payload graphs without a common container or list
+    object: unlike PatchOp before the D30 fix, SetOp never aliased its executions. -/
+theorem heap_setOp_payload_fresh (merge : Bool) (comps : List String) (data : List (String × Node))
+    (h h' : Heap) (root c : Addr) (hnil : h.NilOk)
+    (he : setOpH merge comps data h root = some (h', c)) :
+    ∃ h1, decodeNode h (.cont data) = (h1, c) ∧ h ≤ h1 ∧ h.size ≤ c ∧
+      (∀ b, Reach h1 c b → h.size ≤ b ∨ b = nilAddr) ∧
+      (merge = false → comps ≠ [] → addValueAtH h1 root comps c = some h') := by
+  obtain ⟨hl, hfresh⟩ := decodeNode_fresh (.cont data) h hnil
+  unfold setOpH at he
+  generalize hdec : decodeNode h (.cont data) = r at he hl hfresh
+  obtain ⟨h1, c1⟩ := r
+  simp only at he hl hfresh
+  have hc1 : h.size ≤ c1 := by
+    -- the root of a decoded MAP is a new container cell (never the nil leaf)
+    have : c1 = (decodeKvs h data).1.size := by
+      simp only [decodeNode] at hdec
+      generalize decodeKvs h data = q at hdec
+      obtain ⟨g, m⟩ := q
+      simp only [Heap.alloc, Prod.mk.injEq] at hdec
+      exact hdec.2.symm
+    rw [this]
+    exact Heap.size_le_of_le (decodeKvs_le data h)
+  cases hg : h1.get? c1 with
+  | none => simp [hg] at he
+  | some cell =>
+    cases cell with
+    | leaf s => simp [hg] at he
+    | list xs => simp [hg] at he
+    | cont ckvs =>
+      simp only [hg] at he
+      have hcc : c = c1 := by
+        split at he
+        · simp only [Option.map_eq_some_iff] at he
+          obtain ⟨_, _, he⟩ := he
+          exact (congrArg Prod.snd he).symm
+        · split at he
+          · split at he
+            · split at he
+              · split at he
+                · simp only [Option.map_eq_some_iff] at he
+                  obtain ⟨_, _, he⟩ := he
+                  exact (congrArg Prod.snd he).symm
+                · cases he
+              · simp only [Option.map_eq_some_iff] at he
+                obtain ⟨_, _, he⟩ := he
+                exact (congrArg Prod.snd he).symm
+            · simp only [Option.map_eq_some_iff] at he
+              obtain ⟨_, _, he⟩ := he
+              exact (congrArg Prod.snd he).symm
+          · simp only [Option.map_eq_some_iff] at he
+            obtain ⟨_, _, he⟩ := he
+            exact (congrArg Prod.snd he).symm
+      subst hcc
+      refine ⟨h1, rfl, hl, hc1, hfresh, ?_⟩
+      intro hm hne
+      subst hm
+      simp only [if_neg hne, Bool.false_eq_true, if_false, Option.map_eq_some_iff] at he
+      obtain ⟨h2, he2, he3⟩ := he
+      rw [he2]
+      exact congrArg some (congrArg Prod.fst he3)
+
+/-- non-vacuity: the same payload set twice (replace, two paths) on `qHeap`: both succeed, the two
+    placed containers are different new cells -/
+theorem nonvacuous_heap_setOp :
+    let d : List (String × Node) := [("k", .leaf ⟨"int", "1"⟩), ("n", .leaf Scalar.null)]
+    let r1 := setOpH false ["t", "e1"] d qHeap 4
+    let r2 := r1.bind fun p => setOpH false ["t", "e2"] d p.1 4
+    r1.map (·.2) = some 6 ∧ r2.map (·.2) = some 8 ∧
+    (r2.bind fun p => evalH p.1 4 ["t", "e1"]) = some 6 ∧
+    (r2.bind fun p => evalH p.1 4 ["t", "e2"]) = some 8 := by
   decide +kernel
 
 end heap
